@@ -172,8 +172,16 @@ func (w *World) randomAct(rng *sim.Rng) Act {
 			return w.randomAct(rng)
 		}
 		a.V, a.P = v.id, v.prod
-		if rng.Intn(12) == 0 { // wrong product id now and then
+		if rng.Intn(10) == 0 { // wrong product id now and then: any product, or (half of the time) another product in which the same user holds a vault too
 			a.P = w.Prods[rng.Intn(len(w.Prods))].ID
+			if rng.Intn(2) == 0 {
+				for _, o := range vs {
+					if o.owner == v.owner && o.prod != v.prod {
+						a.P = o.prod
+						break
+					}
+				}
+			}
 		}
 		p := w.Prod(v.prod)
 		debt := v.out + v.int + v.cls
@@ -222,6 +230,15 @@ func (w *World) randomAct(rng *sim.Rng) Act {
 		a.P = w.Prods[2].ID
 		a.V = 1
 		a.X = []int64{1, 2, 3, 5, 10, 25, 100, 101, 1000}[rng.Intn(9)]
+		if a.A != "SWithdraw" && rng.Intn(3) == 0 {
+			// boundary: the collateral amount whose minted counterpart lands on (or one unit around) the product's remaining debt ceiling
+			sp := w.Prods[2]
+			x := w.headroom(&sp) * w.Decs[sp.CollD] / w.Decs[sp.DebtD]
+			a.X = clampPos(x + int64(rng.Intn(4)) - 1)
+			if a.X == 0 {
+				a.X = 1
+			}
+		}
 		if rng.Intn(15) == 0 {
 			a.V = 2
 		}
@@ -686,6 +703,9 @@ func exploreEsm(lg *sim.Log, seed int64, depth, maxNodes int, withStable bool) {
 				continue
 			}
 			a.On = false
+		}
+		if !withStable && a.A == "Bid" { // second variant: the V2 auction collects no more than its penalty before the shutdown (the other arm of its close-out)
+			a.X = 2
 		}
 		if !withStable { // second variant: the V1 auction that collected more than its principal gets the LOWER id (closed out first, while the other one's proceeds are still in custody)
 			a = swapV1(a)
